@@ -33,7 +33,7 @@ EXHAUSTIVE = {"quick": True, "thorough": True}
 NSHARDS = {"quick": 4, "thorough": 4}
 EXPECTED = 9 * 216 * 1008 * 3
 THRESHOLDS = {"quick": {"c15:enumerated": EXPECTED, "c15:reference-enumerated": EXPECTED, "c15:names-digested": EXPECTED,
-                        "c15:element-classes": 10, "c15:re-enumerated-after-helpers": 1, "c15:hash-checked": 300000, "c15:cross-process": 1500, "c15:hashseeds": 3,
+                        "c15:element-classes": 10, "c15:re-enumerated-after-helpers": 1, "c15:re-enumerated-after-new-element-class": 6, "c15:path-tokenizers-after-new-step-classes": 1, "c15:hash-checked": 300000, "c15:cross-process": 1500, "c15:hashseeds": 3,
                         "c15:save-load": 300, "c15:identity-after-use": 250, "c15:pickled": 250, "c15:zanj-file": 30, "c15:legacy-checked": 40000, "c15:from_legacy": 3,
                         "c15:legacy-neighbours": 20}}
 THRESHOLDS["thorough"] = {**THRESHOLDS["quick"], "c15:hash-checked": EXPECTED, "c15:legacy-checked": EXPECTED, "c15:save-load": 2000}
@@ -409,9 +409,55 @@ def helpers_child_finish(ctx, proc):
               f"{r['n_again']} (default x{r['default_in_again']}; the first list object now has {r['n_first_object_now']})", r)
 
 
+def subclass_child(ctx):
+    """a program that adds element classes after a first enumeration (fresh interpreter, so the classes it defines stay out of this one)"""
+    import math
+    try:
+        pr = subprocess.run([PY, "-m", "vmon.c15_subclass_child"], capture_output=True, text=True, timeout=600, env=shard_env(dict(PYTHONHASHSEED=str(ctx.seed % 97))), cwd=VERIF_ROOT)
+    except subprocess.TimeoutExpired:
+        ctx.tally("c15:subclass-child-timeout(not judged)")
+        return
+    if pr.returncode != 0 or "{" not in pr.stdout:
+        ctx.tally("c15:subclass-child-failed(not judged)")
+        ctx.note(f"c15 subclass child failed rc={pr.returncode}: {pr.stderr[-300:]}")
+        return
+    r = json.loads(pr.stdout[pr.stdout.index("{"):])
+    for key, rec in r["bases"].items():
+        if "skipped" in rec:
+            continue
+        if "error" in rec:
+            ctx.tally("c15:added-class-not-constructible(not judged)")
+            ctx.note(f"c15 subclass child {key}: {rec['error']}")
+            continue
+        ctx.ev(); ctx.tally("c15:re-enumerated-after-new-element-class")
+        ok = (rec["before_dups"] == 0 and rec["after_dups"] == 0 and rec["new_distinct"] == 2 and rec["after"] == rec["before"] + 2
+              and not rec["missing"] and not rec["extra"] and rec["again_same"])
+        ctx.check(ok, "C15/enumeration-ignores-or-mangles-element-class-defined-after-first-enumeration",
+                  f"{key}: {rec['before']} instances, then a new concrete class with one boolean field, then {rec['after']} (missing {rec['missing']}, extra {rec['extra']}, "
+                  f"duplicates {rec['after_dups']}, stable on a third enumeration: {rec['again_same']})", dict(base=key, **rec))
+    pl = r.get("plain") or {}
+    if pl:
+        ctx.ev(); ctx.tally("c15:re-enumerated-plain-dataclasses")
+        ctx.check((pl["before"], pl["after"], pl["before_vf"], pl["after_vf"], pl["after_distinct"]) == (2, 6, 1, 5, 6),
+                  "C15/enumeration-ignores-or-mangles-element-class-defined-after-first-enumeration",
+                  f"plain dataclasses: abstract base with A(x: bool), later B(y: bool, z: bool): enumerated {pl['before']} then {pl['after']} (expected 2 then 6); "
+                  f"with a validation function on A: {pl['before_vf']} then {pl['after_vf']} (expected 1 then 5)", pl)
+    pa = r.get("paths")
+    st = r["bases"].get("StepTokenizers._StepTokenizer", {})
+    if pa and "after" in st:
+        def n_paths(sizes, k):
+            return sizes * (sum(math.perm(k, l) for l in range(1, 5)) - 1) * 8
+        ctx.ev(); ctx.tally("c15:path-tokenizers-after-new-step-classes")
+        ctx.check(pa["before"] == n_paths(pa["sizes_before"], st["before"]) and pa["after"] == n_paths(pa["sizes_after"], st["after"]),
+                  "C15/enumeration-ignores-or-mangles-element-class-defined-after-first-enumeration",
+                  f"path tokenizers: {pa['before']} with {pa['sizes_before']} step sizes x {st['before']} step tokenizers (expected {n_paths(pa['sizes_before'], st['before'])}); after two new "
+                  f"classes {pa['after']} with {pa['sizes_after']} x {st['after']} (expected {n_paths(pa['sizes_after'], st['after'])})", pa)
+
+
 def run(ctx):
     if ctx.shard == 0:
         hp = helpers_child_start(ctx)
+        subclass_child(ctx)
         enumeration(ctx)
         element_classes(ctx)
         helpers_child_finish(ctx, hp)
